@@ -105,8 +105,40 @@ class Sched:
             raise SystemExit
         self._switch_to(me, self._pick(others))
 
+    # ------------------------------------------------------------------ threads created by the code under test
+    def spawn(self, fn, name=None):
+        """Register and start a worker while the scheduled section is running (e.g. a helper thread the code under test starts)."""
+        w = Worker(self, len(self.workers), fn, name or "S%d" % len(self.workers))
+        self.workers.append(w)
+        w.thread.start()  # parks on its semaphore until it is chosen
+        return w
+
+    def join(self, worker):
+        me = self.cur
+        if me is None or not self.active:
+            worker.thread.join()
+            return
+        self.yield_point(("join", worker.name))
+        me = self.cur
+        while not worker.finished:
+            self.block(me, ("join", worker))
+            me = self.cur
+
+    def forced_yield(self, kind):
+        """The running worker gives way to another runnable worker if there is one (a timed wait that has not expired yet)."""
+        me = self.cur
+        if me is None or not self.active:
+            return
+        self.step += 1
+        others = self.runnable(exclude=me)
+        if others:
+            self._switch_to(me, self._pick(others))
+
     def finish(self, me):
         me.finished = True
+        for w in self.workers:
+            if isinstance(w.blocked_on, tuple) and w.blocked_on[0] == "join" and w.blocked_on[1] is me:
+                w.blocked_on = None
         others = self.runnable()
         if others:
             nxt = self._pick(others)
@@ -203,3 +235,49 @@ class CoopRLock:
 
     def __exit__(self, *a):
         self.release()
+
+
+class CoopEvent:
+    """threading.Event stand-in whose waiting is visible to the scheduler. A timed wait() that finds the event unset gives way to
+    another runnable worker once and then reports the event's state (the timer expires at an arbitrary later moment)."""
+
+    def __init__(self, s, name="event"):
+        self.s = s
+        self.name = name
+        self._flag = False
+        self._waits = 0
+
+    def is_set(self):
+        return self._flag
+
+    def set(self):
+        self._flag = True
+        for w in self.s.workers:
+            if w.blocked_on is self:
+                w.blocked_on = None
+        if self.s.cur is not None and self.s.active:
+            self.s.yield_point(("event-set", self.name))
+
+    def clear(self):
+        self._flag = False
+
+    def wait(self, timeout=None):
+        s = self.s
+        if s.cur is None or not s.active:
+            return self._flag
+        if self._flag:
+            return True
+        if timeout is None:
+            me = s.cur
+            while not self._flag:
+                s.block(me, self)
+                me = s.cur
+            return True
+        # every other timed wait "expires at once" (the waiter carries on without giving way), the others give way to another worker:
+        # a helper thread with a short period thus alternates between running its loop body and letting the other workers run
+        self._waits += 1
+        if self._waits % 2 == 1:
+            s.yield_point(("event-wait", self.name))
+            return self._flag
+        s.forced_yield(("event-wait", self.name))
+        return self._flag
